@@ -2,7 +2,9 @@ import BctVerif.Model.Basic
 /-!
 # Executable model of the synthetic generators of `bct/algorithms/reference.py`
 
-`makerandCIJ_dir`, `makerandCIJ_und`, `makeringlatticeCIJ`, `makeevenCIJ`, `makerandCIJdegreesfixed`.
+`makerandCIJ_dir`, `makerandCIJ_und`, `makeringlatticeCIJ`, `makeevenCIJ`, `makerandCIJdegreesfixed`,
+`maketoeplitzCIJ`, `makefractalCIJ`.  A `random_sample` value is recorded as the integer `v·2^53`; float
+thresholds observed in the real run are exact dyadic rationals `num/den`.
 A `rng.randint(k)` draw is its value.
 A `rng.permutation(m)` draw is an explicit input: its m values (`List Nat`).
 
@@ -115,25 +117,32 @@ def ringLattice (n k : Nat) (ds : List Nat) : Except Err (AMat Int n × List Nat
         | .error e => .error e
         | .ok C => .ok (C, ds.drop m)
 
+/-! ### the hierarchical template shared by makeevenCIJ and makefractalCIJ -/
+
+/-- the doubling loop, as coded: `t = 2·ones(2,2)`; `for lvl in range(1, mx_lvl): s = 2**(lvl+1);
+CIJ = ones(s,s); CIJ.flat[ix1] = t; CIJ.flat[ix2] = t; CIJ += 1; t = CIJ` (`ix1` / `ix2` are the two
+diagonal blocks).  `tmpl l` is `t` after `l` passes, an `s × s` matrix with `s = 2^(l+1)`. -/
+def tmpl : (l : Nat) → AMat Int (2 ^ (l + 1))
+  | 0 => AMat.ofFn fun _ _ => 2
+  | l + 1 =>
+    let t := tmpl l          -- evaluated once, not per cell
+    AMat.ofFn fun i j =>
+      (if h : i.val < 2 ^ (l + 1) ∧ j.val < 2 ^ (l + 1) then t.get ⟨i.val, h.1⟩ ⟨j.val, h.2⟩
+       else if h' : 2 ^ (l + 1) ≤ i.val ∧ 2 ^ (l + 1) ≤ j.val then
+         t.get ⟨i.val - 2 ^ (l + 1), by have := i.isLt; have : 2 ^ (l + 1 + 1) = 2 ^ (l + 1) * 2 := Nat.pow_succ 2 (l + 1); omega⟩
+               ⟨j.val - 2 ^ (l + 1), by have := j.isLt; have : 2 ^ (l + 1 + 1) = 2 ^ (l + 1) * 2 := Nat.pow_succ 2 (l + 1); omega⟩
+       else 1) + 1
+
+/-- `CIJ -= ones((s,s)) + mx_lvl * eye(s)` with `mx_lvl = m + 1`, `n = s = 2^mx_lvl` -/
+def hierTemplate {n m : Nat} (hn : n = 2 ^ (m + 1)) : AMat Int n :=
+  let t := tmpl m
+  AMat.ofFn fun i j =>
+    t.get ⟨i.val, hn ▸ i.isLt⟩ ⟨j.val, hn ▸ j.isLt⟩ - (1 + (if i = j then (Int.ofNat m + 1) else 0))
+
 /-! ### makeevenCIJ -/
 
-/-- number of binary digits of x (0 for 0); structural on a fuel so that the kernel can evaluate it -/
-def bitLenAux : Nat → Nat → Nat
-  | 0, _ => 0
-  | fuel + 1, x => if x = 0 then 0 else bitLenAux fuel (x / 2) + 1
-
-def bitLen (x : Nat) : Nat := bitLenAux x x
-
-/-- the hierarchical template after `CIJ -= ones + mx_lvl * eye`: for i ≠ j the number of
-hierarchical levels (blocks of size 2, 4, …, n) that contain both nodes; 0 on the diagonal.
-(Closed form of the doubling loop; tied to the code by the correspondence run.) -/
-def evenTemplate (n mx : Nat) : AMat Int n :=
-  AMat.ofFn fun i j => if i = j then 0 else (Int.ofNat mx + 1 - Int.ofNat (bitLen (i.val ^^^ j.val)))
-
-/-- `makeevenCIJ(n, k, sz_cl)` for n a power of two, n ≥ 4 (`mx = log2 n`) -/
-def evenCIJ (n mx k szcl : Nat) (ds : List Nat) : Except Err (AMat Int n × List Nat) :=
-  if n ≠ 2 ^ mx ∨ mx < 2 then .error .param else
-  let T := evenTemplate n mx
+/-- `makeevenCIJ` after the template `T` has been built (`mx = mx_lvl`) -/
+def evenFill {n} (T : AMat Int n) (mx k szcl : Nat) (ds : List Nat) : Except Err (AMat Int n × List Nat) :=
   let thr : Int := Int.ofNat mx - (Int.ofNat szcl - 1)
   let P : AMat Int n := AMat.ofFn fun i j => b2i (decide (T.get i j ≥ thr))
   let cnt := matSum P
@@ -146,6 +155,93 @@ def evenCIJ (n mx k szcl : Nat) (ds : List Nat) : Except Err (AMat Int n × List
     if ds.length < m then .error .outOfDraws
     else if !isPermOfRange (ds.take m) m then .error .badDraw
     else .ok (writeOnes P (choose free (ds.take m) remK), ds.drop m)
+
+/-- `makeevenCIJ(n, k, sz_cl)` for n a power of two, n ≥ 4 (`mx = mx_lvl = log2 n`; for mx_lvl = 1 the
+Python loop body never runs and `CIJ` is unbound — outside the domain, `.param` here) -/
+def evenCIJ (n mx k szcl : Nat) (ds : List Nat) : Except Err (AMat Int n × List Nat) :=
+  match mx with
+  | 0 => .error .param
+  | m + 1 =>
+    if hn : n = 2 ^ (m + 1) then
+      if m = 0 then .error .param else evenFill (hierTemplate hn) (m + 1) k szcl ds
+    else .error .param
+
+/-! ### thresholds: a float is an exact dyadic rational `num / den`, a uniform draw is `v · 2^-53` -/
+
+abbrev Thr := Nat × Nat
+
+/-- `u < t` -/
+def ltThr (v : Nat) (t : Thr) : Bool := decide (v * t.2 < t.1 * 2 ^ 53)
+
+/-- `rng.random_sample((n, n)) < T` (equivalently `T > rng.random_sample((n, n))`), row-major draws;
+`us.size = n*n` is checked by the callers -/
+def sampleLt {n} (T : AMat Thr n) (us : Array Nat) : AMat Int n :=
+  AMat.ofFn fun i j => b2i (ltThr us[i.val * n + j.val]! (T.get i j))
+
+/-! ### maketoeplitzCIJ -/
+
+/-- `linalg.toeplitz(np.append((0,), pf))` for the scaled profile `pf` (an input: the float values
+`pf * (k / sum)` observed in the real run; `norm.pdf` and the float scaling are not modelled) -/
+def toeplitzOf (n : Nat) (prof : Array Thr) : AMat Thr n :=
+  AMat.ofFn fun i j =>
+    if i = j then (0, 1) else prof[(if i.val < j.val then j.val - i.val else i.val - j.val) - 1]!
+
+/-- `while np.sum(CIJ) != k: CIJ = (rng.random_sample((n, n)) < template); itr += 1;
+if itr > 10000: raise BCTParamError` -/
+def toepLoop {n} (T : AMat Thr n) (k : Nat) : (fuel itr : Nat) → AMat Int n → List Nat → Except Err (AMat Int n × List Nat)
+  | 0, _, _, _ => .error .outOfDraws
+  | fuel + 1, itr, C, ds =>
+    if matSum C = Int.ofNat k then .ok (C, ds)
+    else if ds.length < n * n then .error .outOfDraws
+    else
+      let C' := sampleLt T (ds.take (n * n)).toArray
+      if itr + 1 > 10000 then .error .param else toepLoop T k fuel (itr + 1) C' (ds.drop (n * n))
+
+/-- `maketoeplitzCIJ(n, k, s)`; `prof` must have the n-1 entries of the scaled profile -/
+def toeplitzCIJ (n k : Nat) (prof : List Thr) (ds : List Nat) : Except Err (AMat Int n × List Nat) :=
+  if prof.length + 1 ≠ n ∨ prof.any (·.2 == 0) then .error .badDraw
+  else toepLoop (toeplitzOf n prof.toArray) k 10002 0 (zeroMat n) ds
+
+/-! ### makefractalCIJ -/
+
+/-- `ee = mx_lvl - CIJ - sz_cl; ee = (ee > 0) * ee` (`sz_cl` already decremented) -/
+def fractalEE {n} (T : AMat Int n) (mx szcl : Nat) (i j : Fin n) : Int :=
+  let e := Int.ofNat mx - T.get i j - (Int.ofNat szcl - 1)
+  if 0 < e then e else 0
+
+def thrEq (a b : Thr) : Bool := a.1 * b.2 == b.1 * a.2
+
+/-- the observed probability matrix `prob = (1 / E**ee) * (ones - eye)` must be what the code's structure
+dictates: 0 on the diagonal, 1 where `ee = 0`, and a function of `ee` elsewhere (the float powers
+`1 / E**ee` themselves are not modelled) -/
+def probConsistent {n} (T : AMat Int n) (mx szcl : Nat) (prob : AMat Thr n) : Bool :=
+  let fr := List.finRange n
+  let off : List (Cell n) := fr.flatMap fun i => (fr.filter (· ≠ i)).map fun j => (i, j)
+  -- one representative probability per value of `ee`
+  let reps : List (Int × Thr) := off.foldl (fun acc c =>
+    let e := fractalEE T mx szcl c.1 c.2
+    if acc.any (·.1 == e) then acc else (e, prob.get c.1 c.2) :: acc) []
+  (fr.all fun i => (prob.get i i).1 == 0 && (prob.get i i).2 != 0) &&
+  (off.all fun c =>
+    let e := fractalEE T mx szcl c.1 c.2
+    (prob.get c.1 c.2).2 != 0 && (if e == 0 then thrEq (prob.get c.1 c.2) (1, 1) else true) &&
+    match reps.find? (·.1 == e) with
+    | some r => thrEq r.2 (prob.get c.1 c.2)
+    | none => false)
+
+/-- `makefractalCIJ(mx_lvl, E, sz_cl)` → `(CIJ, k)`; `prob` is the observed float matrix -/
+def fractalCIJ (n mx szcl : Nat) (prob : AMat Thr n) (ds : List Nat) : Except Err (AMat Int n × Int × List Nat) :=
+  match mx with
+  | 0 => .error .param
+  | m + 1 =>
+    if hn : n = 2 ^ (m + 1) then
+      if m = 0 then .error .param
+      else if !probConsistent (hierTemplate hn) (m + 1) szcl prob then .error .badDraw
+      else if ds.length < n * n then .error .outOfDraws
+      else
+        let C := sampleLt prob (ds.take (n * n)).toArray
+        .ok (C, matSum C, ds.drop (n * n))
+    else .error .param
 
 /-! ### makerandCIJdegreesfixed -/
 
@@ -218,6 +314,14 @@ def degreesFixed {n} (inv outv : Fin n → Nat) (ds : List Nat) : Except Err (AM
 
 /-! ### driver -/
 
+def parseThr (s : String) : Option Thr :=
+  match s.splitOn "/" with
+  | [a, b] => do let a ← a.toNat?; let b ← b.toNat?; if b = 0 then none else some (a, b)
+  | _ => none
+
+def parseThrs (s : String) : Option (List Thr) :=
+  if s == "-" || s == "" then some [] else (s.splitOn ",").mapM parseThr
+
 def step (line : String) : String :=
   let (op, kv) := parseLine line
   let res : Option String := do
@@ -235,6 +339,20 @@ def step (line : String) : String :=
       let mx ← (← lookup kv "mx").toNat?
       let szcl ← (← lookup kv "szcl").toNat?
       some (out (evenCIJ n mx k szcl ds))
+    else if op == "maketoeplitzCIJ" then
+      let prof ← parseThrs (← lookup kv "prof")
+      some (out (toeplitzCIJ n k prof ds))
+    else if op == "makefractalCIJ" then
+      let mx ← (← lookup kv "mx").toNat?
+      let szcl ← (← lookup kv "szcl").toNat?
+      let pr ← parseThrs (← lookup kv "prob")
+      if pr.length ≠ n * n then none
+      else
+        let pa := pr.toArray
+        let prob : AMat Thr n := AMat.ofFn fun i j => pa[i.val * n + j.val]!
+        match fractalCIJ n mx szcl prob ds with
+        | .error e => some s!"error={e.str}"
+        | .ok (C, kk, rest) => some s!"C={showMat C} k={kk} left={rest.length}"
     else if op == "makerandCIJdegreesfixed" then
       let iv ← parseNats (← lookup kv "inv")
       let ov ← parseNats (← lookup kv "outv")
